@@ -4,6 +4,7 @@
 //   * String: vstd specifies the METHOD `a.eq(b)` but leaves `eq_spec` of String open, so `a == b` on two `&String`
 //     (the blanket impl for references, which goes through eq_spec) had an arbitrary result - a harmless rewrite of
 //     `s.eq(t)` into `s == t` failed obligations (DESIGN 8.47).  String equality is equality of the character sequences.
+//   * String `+=`: appends (AddAssign of String is left open by vstd).
 //   * f64: IEEE `==` is symmetric (`a == b` and `b == a` are the same comparison), and the partial comparison of (b, a) is the
 //     converse of that of (a, b) (`a <= b` and `b >= a` are the same comparison; unordered stays unordered).  Nothing else is
 //     assumed of their values.
@@ -17,6 +18,14 @@ pub mod vax {
         ensures #[trigger] <String as vstd::std_specs::cmp::PartialEqSpec>::eq_spec(&a, &b) == (a@ == b@);
     pub broadcast axiom fn axiom_f64_eq_sym(a: f64, b: f64)
         ensures #[trigger] <f64 as vstd::std_specs::cmp::PartialEqSpec>::eq_spec(&a, &b) == <f64 as vstd::std_specs::cmp::PartialEqSpec>::eq_spec(&b, &a);
+    // `s += t` on a String (t: &str, or a &String through deref coercion) appends the characters of t - vstd leaves AddAssign
+    // of String open, and an unwrapped `+=` then failed a PRECONDITION (harmless H20)
+    pub broadcast axiom fn axiom_string_add_assign_obeys()
+        ensures #[trigger] <String as vstd::std_specs::ops::AddAssignSpec<&str>>::obeys_add_assign_spec();
+    pub broadcast axiom fn axiom_string_add_assign_req(a: String, b: &str)
+        ensures #[trigger] <String as vstd::std_specs::ops::AddAssignSpec<&str>>::add_assign_req(&a, b);
+    pub broadcast axiom fn axiom_string_add_assign(a: String, b: &str)
+        ensures (#[trigger] <String as vstd::std_specs::ops::AddAssignSpec<&str>>::add_assign_spec(&a, b))@ == a@ + b@;
     pub open spec fn converse(o: Option<core::cmp::Ordering>) -> Option<core::cmp::Ordering> {
         match o {
             Some(core::cmp::Ordering::Less) => Some(core::cmp::Ordering::Greater),
@@ -28,4 +37,5 @@ pub mod vax {
     pub broadcast axiom fn axiom_f64_cmp_converse(a: f64, b: f64)
         ensures #[trigger] <f64 as vstd::std_specs::cmp::PartialOrdSpec>::partial_cmp_spec(&a, &b) == converse(<f64 as vstd::std_specs::cmp::PartialOrdSpec>::partial_cmp_spec(&b, &a));
 }
-broadcast use {vax::axiom_string_eq_obeys, vax::axiom_string_eq, vax::axiom_f64_eq_sym, vax::axiom_f64_cmp_converse};
+broadcast use {vax::axiom_string_eq_obeys, vax::axiom_string_eq, vax::axiom_f64_eq_sym, vax::axiom_f64_cmp_converse,
+               vax::axiom_string_add_assign_obeys, vax::axiom_string_add_assign_req, vax::axiom_string_add_assign};
